@@ -3,6 +3,7 @@ package c15
 import (
 	stdjson "encoding/json"
 	"fmt"
+	"os"
 	"regexp"
 	"strconv"
 	"strings"
@@ -263,7 +264,7 @@ func cutoffExplains(g *ref.Graph, doc *ref.Value) bool {
 		}
 		if n.Kind == ref.SRef {
 			// the alternative whose root kind fits the value
-			for _, nm := range n.Names {
+			for idx, nm := range n.Names {
 				t := g.Types[nm]
 				if t == nil || (len(n.Names) > 1 && cutName(nm, counts, 0)) {
 					continue // the builder takes the first alternative that still yields something
@@ -272,7 +273,7 @@ func cutoffExplains(g *ref.Graph, doc *ref.Value) bool {
 					(t.Kind == ref.SLit && v.Kind != ref.KObject && v.Kind != ref.KArray)
 				if fits {
 					counts[nm]++
-					if len(n.Names) > 1 && nm != n.Names[len(n.Names)-1] {
+					if idx < len(n.Names)-1 { // (by position: a list may name a type twice)
 						// an alternative that is not the last one is a place that may go: what is cut off
 						// below it makes the builder give it up and try the next one
 						f0, o0 := found, other
@@ -384,6 +385,9 @@ func cutoffExplains(g *ref.Graph, doc *ref.Value) bool {
 		}
 	}
 	walk(g.Root, doc, g.KeysOptional, map[string]int{}, 0)
+	if os.Getenv("C15_DEBUG") != "" {
+		fmt.Fprintf(os.Stderr, "cutoffExplains: found=%d other=%d\n", found, other)
+	}
 	return found > 0 && other == 0
 }
 
